@@ -754,4 +754,326 @@ theorem segLoad_spec (c : Cls) (enc : Enc) (tr : List Trans) (ls : LoadSt) (hdrO
     exact ⟨h1, h2⟩
   · exact ⟨hs', hg⟩
 
+/-! ### bounded string lookup -/
+
+/-- what a successful bounded string lookup returns: the bytes at `idx` up to (excluding) a NUL
+    that lies inside `[0, size)` -/
+structure CStrAt (data : Bytes) (size idx : Nat) (s : Bytes) : Prop where
+  inside : idx + s.length < size
+  noNul : (0 : UInt8) ∉ s
+  bytes : s = slice data idx s.length
+  term : data[idx + s.length]? = some 0
+
+/-- the checked search never leaves a buffer that is longer than the section size -/
+theorem cstrAt_total (site : String) (data : Bytes) (size idx : Nat) (h : size < data.length) :
+    ∃ r, cstrAt site data size idx = .ok r ∧ ∀ s, r = some s → CStrAt data size idx s := by
+  unfold cstrAt
+  by_cases hi : idx ≥ size
+  · exact ⟨none, by simp [hi, pure, Except.pure], fun s hs => by cases hs⟩
+  · rw [if_neg hi]
+    have hal : (slice data idx (size - idx)).length = size - idx := by
+      rw [slice_length]; omega
+    dsimp only
+    cases hk : (slice data idx (size - idx)).idxOf? (0 : UInt8) with
+    | none =>
+      refine ⟨none, ?_, fun s hs => by cases hs⟩
+      simp [hal, pure, Except.pure]
+    | some k =>
+      refine ⟨some ((slice data idx (size - idx)).take k), rfl, ?_⟩
+      intro s hs
+      simp only [Option.some.injEq] at hs
+      subst hs
+      obtain ⟨hkl, hk0, hkj⟩ := List.idxOf?_eq_some_iff.mp hk
+      have hkl' : k < size - idx := hal ▸ hkl
+      have hlen : ((slice data idx (size - idx)).take k).length = k := by
+        rw [List.length_take, hal]; omega
+      refine ⟨by rw [hlen]; omega, ?_, ?_, ?_⟩
+      · intro hm
+        obtain ⟨j, hj, hj0⟩ := List.mem_iff_getElem.mp hm
+        rw [List.getElem_take] at hj0
+        rw [hlen] at hj
+        exact hkj j hj hj0
+      · rw [hlen]; unfold slice; rw [List.take_take]; congr 1; omega
+      · rw [hlen]
+        have : (slice data idx (size - idx))[k]? = some 0 := by
+          rw [List.getElem?_eq_getElem hkl, hk0]
+        unfold slice at this
+        rw [List.getElem?_take, if_pos hkl', List.getElem?_drop] at this
+        exact this
+
+/-- the buffer fact the string reader needs -/
+def BufOk (b : SecBuf) : Prop := ∀ d, b.data = some d → b.size.toNat < d.length
+
+theorem LoadedSec.bufOk {tr img} {b : SecBuf} (h : LoadedSec tr b img) : BufOk b := by
+  intro d hd; have := h.len d hd; omega
+
+/-- `get_string(index)` is memory-safe for EVERY 32-bit index, and what it returns is a
+    NUL-free run of section bytes inside `[0, size)` -/
+theorem getString_total' (b : SecBuf) (hb : BufOk b) (idx : BitVec 32) :
+    ∃ r, getString b idx = .ok r ∧
+      ∀ s, r = some s → ∃ d, b.data = some d ∧ CStrAt d b.size.toNat idx.toNat s := by
+  unfold getString
+  cases hd : b.data with
+  | none => exact ⟨none, rfl, fun s hs => by cases hs⟩
+  | some d =>
+    obtain ⟨r, hr, hs⟩ := cstrAt_total "get_string/memchr" d b.size.toNat idx.toNat (hb d hd)
+    exact ⟨r, hr, fun s h => ⟨d, rfl, hs s h⟩⟩
+
+/-- the section with the name `resolveNames` gives it -/
+def withName (strtab b : SecBuf) : SecBuf :=
+  match getString strtab b.nameOff with
+  | .ok (some s) => { b with name := s }
+  | _ => b
+
+theorem resolveNames_eq (strtab : SecBuf) (hb : BufOk strtab) (secs : List SecBuf) :
+    resolveNames strtab secs = .ok (secs.map (withName strtab)) := by
+  induction secs with
+  | nil => rfl
+  | cons b rest ih =>
+    obtain ⟨r, hr, -⟩ := getString_total' strtab hb b.nameOff
+    unfold resolveNames
+    rw [hr, ih]
+    cases r <;> simp [bind, Except.bind, pure, Except.pure, withName, hr]
+
+theorem withName_sameHdr (strtab b : SecBuf) : SameHdr (withName strtab b) b := by
+  unfold withName; split <;> constructor <;> rfl
+
+theorem withName_inv {tr img} (strtab : SecBuf) {b : SecBuf} (h : LoadedSec tr b img) :
+    LoadedSec tr (withName strtab b) img := by
+  unfold withName; split
+  · exact h.of_same rfl rfl rfl rfl rfl rfl
+  · exact h
+
+/-! ### the loops -/
+
+theorem loadSectionsLoop_succ (c enc tr isLazy shoff entsize n i ls acc) :
+    loadSectionsLoop c enc tr isLazy shoff entsize (n + 1) i ls acc =
+      loadSectionsLoop c enc tr isLazy shoff entsize n (i + 1)
+        (secLoad c enc tr ls (shoff + (Int.ofNat i) * (Int.ofNat entsize)) isLazy i).1
+        ((secLoad c enc tr ls (shoff + (Int.ofNat i) * (Int.ofNat entsize)) isLazy i).2 :: acc) := rfl
+
+theorem loadSectionsLoop_spec (c : Cls) (enc : Enc) (tr : List Trans) (isLazy : Bool) (shoff : Int)
+    (entsize : Nat) (img : Bytes) (kind : StreamKind) :
+    ∀ (n i : Nat) (ls : LoadSt) (acc : List SecBuf), StOk tr img kind ls →
+      (∀ b ∈ acc, LoadedSec tr b img) →
+      StOk tr img kind (loadSectionsLoop c enc tr isLazy shoff entsize n i ls acc).1 ∧
+      ∀ b ∈ (loadSectionsLoop c enc tr isLazy shoff entsize n i ls acc).2, LoadedSec tr b img := by
+  intro n
+  induction n with
+  | zero =>
+    intro i ls acc hs hacc
+    exact ⟨hs, fun b hb => hacc b (by simpa [loadSectionsLoop] using hb)⟩
+  | succ n ih =>
+    intro i ls acc hs hacc
+    rw [loadSectionsLoop_succ]
+    obtain ⟨h1, h2⟩ := secLoad_spec c enc tr ls (shoff + (Int.ofNat i) * (Int.ofNat entsize)) isLazy i img kind hs
+    apply ih _ _ _ h1
+    intro b hb
+    rcases List.mem_cons.mp hb with rfl | hb
+    · exact h2
+    · exact hacc b hb
+
+theorem loadSegmentsLoop_succ (c enc tr isLazy phoff entsize secs n i ls acc) :
+    loadSegmentsLoop c enc tr isLazy phoff entsize secs (n + 1) i ls acc =
+      if (!(segLoad c enc tr ls (phoff + (Int.ofNat i) * (Int.ofNat entsize)) isLazy).2.2 ||
+          (segLoad c enc tr ls (phoff + (Int.ofNat i) * (Int.ofNat entsize)) isLazy).1.st.fail) = true then
+        ((segLoad c enc tr ls (phoff + (Int.ofNat i) * (Int.ofNat entsize)) isLazy).1, acc.reverse, false)
+      else
+        loadSegmentsLoop c enc tr isLazy phoff entsize secs n (i + 1)
+          (segLoad c enc tr ls (phoff + (Int.ofNat i) * (Int.ofNat entsize)) isLazy).1
+          ({ (segLoad c enc tr ls (phoff + (Int.ofNat i) * (Int.ofNat entsize)) isLazy).2.1 with
+              index := i,
+              secs := (secs.filter (memberOf (segLoad c enc tr ls (phoff + (Int.ofNat i) * (Int.ofNat entsize)) isLazy).2.1)).map
+                        (fun b => BitVec.ofNat 16 b.index) } :: acc) := rfl
+
+theorem loadSegmentsLoop_spec (c : Cls) (enc : Enc) (tr : List Trans) (isLazy : Bool) (phoff : Int)
+    (entsize : Nat) (secs : List SecBuf) (img : Bytes) (kind : StreamKind) :
+    ∀ (n i : Nat) (ls : LoadSt) (acc : List Seg), StOk tr img kind ls →
+      (∀ g ∈ acc, LoadedSeg tr g img) →
+      StOk tr img kind (loadSegmentsLoop c enc tr isLazy phoff entsize secs n i ls acc).1 ∧
+      ∀ g ∈ (loadSegmentsLoop c enc tr isLazy phoff entsize secs n i ls acc).2.1, LoadedSeg tr g img := by
+  intro n
+  induction n with
+  | zero =>
+    intro i ls acc hs hacc
+    exact ⟨hs, fun g hg => hacc g (by simpa [loadSegmentsLoop] using hg)⟩
+  | succ n ih =>
+    intro i ls acc hs hacc
+    rw [loadSegmentsLoop_succ]
+    obtain ⟨h1, h2⟩ := segLoad_spec c enc tr ls (phoff + (Int.ofNat i) * (Int.ofNat entsize)) isLazy img kind hs
+    split
+    · exact ⟨h1, fun g hg => hacc g (by simpa using hg)⟩
+    · apply ih _ _ _ h1
+      intro g hg
+      rcases List.mem_cons.mp hg with rfl | hg
+      · exact h2.of_same rfl rfl rfl rfl rfl
+      · exact hacc g hg
+
+/-! ### `load` decomposed into its phases (definitionally the same function) -/
+
+def loadSegsPhase (o : Obj) (c : Cls) (enc : Enc) (hdr : Bytes) (isLazy : Bool) (ls : LoadSt)
+    (secs : List SecBuf) : M LoadRes :=
+  if load_segments_entsize_bad (Hdr.e_phnum c enc hdr) (Hdr.ident hdr EI_CLASS) (Hdr.e_phentsize c enc hdr) then
+    pure { obj := { o with secs := secs, stream := ls.st }, ok := false, allocs := ls.allocs }
+  else
+    let r := loadSegmentsLoop c enc o.trans isLazy (Hdr.e_phoff c enc hdr).toInt (Hdr.e_phentsize c enc hdr).toNat
+              secs (Hdr.e_phnum c enc hdr).toNat 0 ls []
+    pure { obj := { o with secs := secs, segs := r.2.1, stream := r.1.st }, ok := r.2.2, allocs := r.1.allocs }
+
+def loadNamesK (c : Cls) (enc : Enc) (tr : List Trans) (hdr : Bytes) (ls : LoadSt) (secs : List SecBuf)
+    (k : LoadSt × List SecBuf → M LoadRes) : M LoadRes :=
+  if Hdr.e_shstrndx c enc hdr == BitVec.ofNat 16 SHN_UNDEF then k (ls, secs) else
+  match secs[(Hdr.e_shstrndx c enc hdr).toNat]? with
+  | none => k (ls, secs)
+  | some strtab =>
+    (resolveNames (secGetData c tr ls strtab).2
+      (secs.set (Hdr.e_shstrndx c enc hdr).toNat (secGetData c tr ls strtab).2)) >>= fun secs' =>
+    k ((secGetData c tr ls strtab).1, secs')
+
+def loadSecs0 (c : Cls) (enc : Enc) (tr : List Trans) (hdr : Bytes) (isLazy : Bool) (st : IStream) :
+    LoadSt × List SecBuf :=
+  if load_sections_entsize_bad (Hdr.e_shnum c enc hdr) (Hdr.ident hdr EI_CLASS) (Hdr.e_shentsize c enc hdr) then
+    ({ st := st }, [])
+  else
+    loadSectionsLoop c enc tr isLazy (Hdr.e_shoff c enc hdr).toInt (Hdr.e_shentsize c enc hdr).toNat
+        (Hdr.e_shnum c enc hdr).toNat 0 { st := st } []
+
+def loadAfterHdr (o : Obj) (c : Cls) (enc : Enc) (hdr : Bytes) (isLazy : Bool) (st : IStream) : M LoadRes :=
+  if load_sections_entsize_bad (Hdr.e_shnum c enc hdr) (Hdr.ident hdr EI_CLASS) (Hdr.e_shentsize c enc hdr) then
+    loadSegsPhase o c enc hdr isLazy (loadSecs0 c enc o.trans hdr isLazy st).1 (loadSecs0 c enc o.trans hdr isLazy st).2
+  else
+    loadNamesK c enc o.trans hdr (loadSecs0 c enc o.trans hdr isLazy st).1 (loadSecs0 c enc o.trans hdr isLazy st).2
+      (fun p => loadSegsPhase o c enc hdr isLazy p.1 p.2)
+
+def failRes (o : Obj) (st : IStream) : LoadRes := { obj := { o with stream := st }, ok := false, allocs := [] }
+
+theorem load_eq (o : Obj) (st : IStream) (isLazy : Bool) :
+    load o st isLazy =
+      (let o0 : Obj := { o with secs := [], segs := [] }
+       let r1 := (st.seekg (trApply o.trans 0)).read 16
+       let idb (i : Nat) : Nat := (r1.2.getD i 0).toNat
+       if r1.1.gcount != 16 then .ok (failRes o0 r1.1) else
+       if idb 0 != ELFMAG0 || idb 1 != ELFMAG1 || idb 2 != ELFMAG2 || idb 3 != ELFMAG3 then .ok (failRes o0 r1.1) else
+       match clsOfByte (idb EI_CLASS), encOfByte (idb EI_DATA) with
+       | none, _ => .ok (failRes o0 r1.1)
+       | some _, none => .ok (failRes o0 r1.1)
+       | some c, some enc =>
+         let r2 := (r1.1.seekg (trApply o.trans 0)).read (ehdrSize c)
+         let hdr := wr (Hdr.create c enc (idb EI_DATA)) 0 r2.2
+         let o1 : Obj := { o0 with cls := c, enc := enc, hdr := some hdr }
+         if r2.1.gcount != ehdrSize c then .ok (failRes o1 r2.1) else
+         loadAfterHdr o1 c enc hdr isLazy r2.1) := by
+  unfold load
+  rfl
+
+/-- everything the loader guarantees about its result -/
+structure LoadPost (o : Obj) (img : Bytes) (kind : StreamKind) (r : LoadRes) : Prop where
+  trans : r.obj.trans = o.trans
+  sdata : r.obj.stream.data = img
+  skind : r.obj.stream.kind = kind
+  secs : ∀ b ∈ r.obj.secs, LoadedSec o.trans b img
+  segs : ∀ g ∈ r.obj.segs, LoadedSeg o.trans g img
+  allocs : ∀ a ∈ r.allocs, AllocOk o.trans img a
+
+theorem loadSegsPhase_spec (o : Obj) (c : Cls) (enc : Enc) (hdr : Bytes) (isLazy : Bool) (ls : LoadSt)
+    (secs : List SecBuf) (img : Bytes) (kind : StreamKind) (ho : o.segs = [])
+    (hs : StOk o.trans img kind ls) (hsecs : ∀ b ∈ secs, LoadedSec o.trans b img) :
+    ∃ r, loadSegsPhase o c enc hdr isLazy ls secs = .ok r ∧ LoadPost o img kind r := by
+  unfold loadSegsPhase
+  split
+  · exact ⟨_, rfl, ⟨rfl, hs.data, hs.kind, hsecs, by simp [ho], hs.allocs⟩⟩
+  · obtain ⟨h1, h2⟩ := loadSegmentsLoop_spec c enc o.trans isLazy (Hdr.e_phoff c enc hdr).toInt
+      (Hdr.e_phentsize c enc hdr).toNat secs img kind (Hdr.e_phnum c enc hdr).toNat 0 ls [] hs
+      (fun g hg => by cases hg)
+    exact ⟨_, rfl, ⟨rfl, h1.data, h1.kind, hsecs, h2, h1.allocs⟩⟩
+
+theorem loadNamesK_spec (c : Cls) (enc : Enc) (tr : List Trans) (hdr : Bytes) (ls : LoadSt)
+    (secs : List SecBuf) (k : LoadSt × List SecBuf → M LoadRes) (img : Bytes) (kind : StreamKind)
+    (P : LoadRes → Prop)
+    (hk : ∀ ls secs, StOk tr img kind ls → (∀ b ∈ secs, LoadedSec tr b img) → ∃ r, k (ls, secs) = .ok r ∧ P r)
+    (hs : StOk tr img kind ls) (hsecs : ∀ b ∈ secs, LoadedSec tr b img) :
+    ∃ r, loadNamesK c enc tr hdr ls secs k = .ok r ∧ P r := by
+  unfold loadNamesK
+  split
+  · exact hk ls secs hs hsecs
+  · split
+    · exact hk ls secs hs hsecs
+    · rename_i strtab hget
+      have hmem : strtab ∈ secs := List.mem_of_getElem? hget
+      obtain ⟨h1, h2, -⟩ := secGetData_spec c tr ls strtab img kind hs (hsecs _ hmem)
+      rw [resolveNames_eq _ h2.bufOk]
+      apply hk _ _ h1
+      intro b hb
+      obtain ⟨b0, hb0, rfl⟩ := List.mem_map.mp hb
+      apply withName_inv
+      rcases List.mem_or_eq_of_mem_set hb0 with h | h
+      · exact hsecs _ h
+      · exact h ▸ h2
+
+theorem loadSecs0_spec (c : Cls) (enc : Enc) (tr : List Trans) (hdr : Bytes) (isLazy : Bool) (st : IStream) :
+    StOk tr st.data st.kind (loadSecs0 c enc tr hdr isLazy st).1 ∧
+    ∀ b ∈ (loadSecs0 c enc tr hdr isLazy st).2, LoadedSec tr b st.data := by
+  unfold loadSecs0
+  have h0 : StOk tr st.data st.kind { st := st } := ⟨rfl, rfl, fun a ha => by cases ha⟩
+  split
+  · exact ⟨h0, fun b hb => by cases hb⟩
+  · exact loadSectionsLoop_spec c enc tr isLazy _ _ st.data st.kind _ 0 _ [] h0 (fun b hb => by cases hb)
+
+theorem loadAfterHdr_spec (o : Obj) (c : Cls) (enc : Enc) (hdr : Bytes) (isLazy : Bool) (st : IStream)
+    (ho : o.segs = []) :
+    ∃ r, loadAfterHdr o c enc hdr isLazy st = .ok r ∧ LoadPost o st.data st.kind r := by
+  unfold loadAfterHdr
+  obtain ⟨h1, h2⟩ := loadSecs0_spec c enc o.trans hdr isLazy st
+  split
+  · exact loadSegsPhase_spec o c enc hdr isLazy _ _ _ _ ho h1 h2
+  · exact loadNamesK_spec c enc o.trans hdr _ _ _ st.data st.kind _
+      (fun ls secs hs hsecs => loadSegsPhase_spec o c enc hdr isLazy ls secs _ _ ho hs hsecs) h1 h2
+
+theorem failRes_post (o : Obj) (st : IStream) (ho1 : o.secs = []) (ho2 : o.segs = []) :
+    LoadPost o st.data st.kind (failRes o st) :=
+  ⟨rfl, rfl, rfl, by simp [failRes, ho1], by simp [failRes, ho2], fun a ha => by cases ha⟩
+
+/-- `elfio::load` returns (never faults) on every byte string, and its result satisfies the
+    loader invariants -/
+theorem load_spec (o : Obj) (st : IStream) (isLazy : Bool) :
+    ∃ r, load o st isLazy = .ok r ∧ LoadPost o st.data st.kind r := by
+  rw [load_eq]
+  dsimp only
+  have hd1 : ((st.seekg (trApply o.trans 0)).read 16).1.data = st.data := by simp
+  have hk1 : ((st.seekg (trApply o.trans 0)).read 16).1.kind = st.kind := by simp
+  have hfail : ∀ (o' : Obj) (st' : IStream), o'.trans = o.trans → o'.secs = [] → o'.segs = [] →
+      st'.data = st.data → st'.kind = st.kind →
+      ∃ r, (Except.ok (failRes o' st') : M LoadRes) = Except.ok r ∧ LoadPost o st.data st.kind r := by
+    intro o' st' h1 h2 h3 h4 h5
+    refine ⟨_, rfl, ?_⟩
+    have := failRes_post o' st' h2 h3
+    rw [h4, h5] at this
+    exact ⟨this.trans.trans h1, this.sdata, this.skind, h1 ▸ this.secs, h1 ▸ this.segs, h1 ▸ this.allocs⟩
+  split
+  · exact hfail _ _ rfl rfl rfl hd1 hk1
+  split
+  · exact hfail _ _ rfl rfl rfl hd1 hk1
+  split
+  · exact hfail _ _ rfl rfl rfl hd1 hk1
+  · exact hfail _ _ rfl rfl rfl hd1 hk1
+  · rename_i c enc _ _
+    have hd2 : ((((st.seekg (trApply o.trans 0)).read 16).1.seekg (trApply o.trans 0)).read (ehdrSize c)).1.data
+        = st.data := by simp
+    have hk2 : ((((st.seekg (trApply o.trans 0)).read 16).1.seekg (trApply o.trans 0)).read (ehdrSize c)).1.kind
+        = st.kind := by simp
+    split
+    · exact hfail _ _ rfl rfl rfl hd2 hk2
+    · obtain ⟨r, hr, hp⟩ := loadAfterHdr_spec
+        { cls := c, enc := enc,
+          hdr := some (wr (Hdr.create c enc
+            (List.getD ((st.seekg (trApply o.trans 0)).read 16).2 EI_DATA 0).toNat) 0
+            ((((st.seekg (trApply o.trans 0)).read 16).1.seekg (trApply o.trans 0)).read (ehdrSize c)).2),
+          secs := [], segs := [], trans := o.trans, curPos := o.curPos, stream := o.stream } c enc
+        (wr (Hdr.create c enc (List.getD ((st.seekg (trApply o.trans 0)).read 16).2 EI_DATA 0).toNat) 0
+            ((((st.seekg (trApply o.trans 0)).read 16).1.seekg (trApply o.trans 0)).read (ehdrSize c)).2)
+        isLazy
+        ((((st.seekg (trApply o.trans 0)).read 16).1.seekg (trApply o.trans 0)).read (ehdrSize c)).1 rfl
+      rw [hd2, hk2] at hp
+      exact ⟨r, hr, ⟨hp.trans, hp.sdata, hp.skind, hp.secs, hp.segs, hp.allocs⟩⟩
+
 end ElfioVerif
